@@ -4,6 +4,7 @@ import Ptk.Model.C17Buf
 import Ptk.Model.C17Flush
 import Ptk.Model.C17Paste
 import Ptk.Model.C17Store
+import Ptk.Model.C17Attach
 open Ptk Ptk.Py Ptk.Proto Ptk.C17
 
 /-! Line protocol of the C17 driver.
@@ -299,8 +300,66 @@ def stepLineM (m : MSt) (toks : List String) : Option (MSt × String) :=
 
 end M
 
+/-! sixth layer (`Ptk.C17.Attach`: the reader's life cycle on the loop, the renderer's CPR memory):
+     Linit k r | LW n k1..kn | LS | LR n | LT | LF | LE | LEND
+     LR n = the harness calls the callback of the running application; LT = the event loop turns:
+     it calls the reader IT has registered (if any), and an application whose result is set leaves -/
+namespace L
+open Ptk.C17.Attach
+
+structure LSt where
+  st : Attach.St
+  k : Nat
+
+def showL (a : Attach.St) : String :=
+  let s := a.l1
+  let e := Ed.render s.kp.applied
+  let d := match s.kp.done with | none => "N" | some k => encKey k
+  let cur : String := if s.running then s!"{encStr e.text} {e.cur}" else "- -"
+  let w := if s.running || s.exiting then s.kp.waiting else a.rw
+  s!"run={encBool s.running} ex={encBool s.exiting} w={w} done={d} buf={cur} q={encKeys s.kp.queue} ta={encKeys s.typeahead} res={encList encRes s.results} rd={encBool a.reader.isSome} cs={encBool (a.seen || decide (0 < s.kp.cprs))} lost={encKeys a.lost}"
+
+def startEvL (a : Attach.St) : Attach.St :=
+  if a.l1.running || a.l1.exiting then a else
+  let a1 := Attach.step a .start
+  if a1.l1.kp.done.isSome then Attach.step a1 .finish else a1
+
+def turnEvL (a : Attach.St) : Attach.St :=
+  -- an application whose result is already set is woken up before the loop polls the fd: it leaves
+  -- (and removes its reader) first
+  let a0 := if a.l1.running && a.l1.kp.done.isSome then Attach.step a .finish else a
+  let a1 := Attach.step a0 (.turn 1000000)
+  if a1.l1.running && a1.l1.kp.done.isSome then Attach.step a1 .finish else a1
+
+def stepLineL (m : LSt) (toks : List String) : Option (LSt × String) :=
+  let ret (a : Attach.St) : Option (LSt × String) := some ({ m with st := a }, showL a)
+  match toks with
+  | ["Linit", k, r] =>
+    match decNat k, decBool r with
+    | some k, some r => some (⟨Attach.St.init r, k⟩, showL (Attach.St.init r))
+    | _, _ => none
+  | "LW" :: n :: rest =>
+    match decNat n with
+    | some n =>
+      match takeKeys n rest with
+      | some (ks, []) => ret (Attach.step m.st (.write ks))
+      | _ => none
+    | none => none
+  | ["LS"] => ret (if m.st.l1.results.length < m.k then startEvL m.st else m.st)
+  | ["LR", n] => (decNat n).bind fun n => ret (Attach.step m.st (.turn n))
+  | ["LT"] => ret (turnEvL m.st)
+  | ["LF"] => ret (Attach.step m.st .finish)
+  | ["LE"] => ret (Attach.step m.st .endWait)
+  | ["LEND"] =>
+    let s := m.st.l1
+    let left := s.typeahead ++ dropCpr s.kp.queue ++ dropCpr s.pipe
+    some (m, s!"run={encBool s.running} res={encList encRes s.results} left={encKeys left} lost={encKeys m.st.lost}")
+  | _ => none
+
+end L
+
 /-- driver state: the model state and the number of prompts the harness will start -/
-abbrev DS := (((St × Nat) × (B.BSt × Nat)) × P.PSt) × M.MSt
+abbrev DS := ((((St × Nat) × (B.BSt × Nat)) × P.PSt) × M.MSt) × L.LSt
 
 def stepLineB (v : Nat) (bs : B.BSt) (kmax : Nat) (toks : List String) : Option B.BSt :=
   match toks with
@@ -425,11 +484,15 @@ def stepLine3 (ds0 : DS3) (toks : List String) : DS3 × String :=
       | some bs => (((ds.1, (bs, ds.2.2)), pst), B.showB bs)
       | none => bad
 
-def stepLine (dsM : DS) (toks : List String) : DS × String :=
+def stepLine (dsL : DS) (toks : List String) : DS × String :=
+  match L.stepLineL dsL.2 toks with
+  | some (l, r) => ((dsL.1, l), r)
+  | none =>
+  let dsM := dsL.1
   match M.stepLineM dsM.2 toks with
-  | some (m, r) => ((dsM.1, m), r)
+  | some (m, r) => (((dsM.1, m), dsL.2), r)
   | none =>
   let (r1, out) := stepLine3 dsM.1 toks
-  ((r1, dsM.2), out)
+  (((r1, dsM.2), dsL.2), out)
 
-def main : IO Unit := runS stepLine ((((St.init false, 0), (B.initB, 0)), P.initP), M.initM 0 0)
+def main : IO Unit := runS stepLine (((((St.init false, 0), (B.initB, 0)), P.initP), M.initM 0 0), ⟨Attach.St.init false, 0⟩)
